@@ -95,7 +95,10 @@ PATHS_SPECIAL = ["[heap]", "[stack]", "[vdso]", "[vvar]", "[vsyscall]", "[anon:s
                  "[anon_shmem:x y]", "[stack:1234]", "anon_inode:[io_uring]", "/dev/null", "/memfd:buf"]
 PATHS_BYTES = ["/tmp/\xff\xfe.so", "/tmp/caf\xc3\xa9", "/tmp/a\\012b", "/tmp/\xe2\x82\xac uro"]
 PATHS_TRAILING = ["/tmp/trail ", "/opt/lib.so  "]
-ALL_POOLS = [PATHS_PLAIN, PATHS_SPACE, PATHS_COLON, PATHS_DELETED, PATHS_SPECIAL, PATHS_BYTES]
+# the kernel escapes only "\n" in a mapping's path: every other control byte is printed raw and is part of the name
+PATHS_CTRL = ["/opt/plug\rin v1:2.so", "/tmp/a\x0bb", "/tmp/f\x0cf.so", "/tmp/x\x1cy", "/tmp/n\x85l", "/tmp/cr\r\rlf",
+              "/tmp/t\tab"]
+ALL_POOLS = [PATHS_PLAIN, PATHS_SPACE, PATHS_COLON, PATHS_DELETED, PATHS_SPECIAL, PATHS_BYTES, PATHS_CTRL]
 
 BAD_MEMTYPES = ["", "RSS", "rss ", " rss", "count", "index", "_fields", "private_clean", "size", "path",
                 "num_page_faults", "peak_wset", "pfaults", "swapped", "rss\n", "us", "total"]
